@@ -207,7 +207,65 @@ def in_group_st(draw, tier):
     return {"platform": platform, "members": members, "x": x, "sx": draw(st.integers(0, 1))}
 
 
+def judge_readdress(case) -> Verdict:
+    """Ask, re-address the bottom (line setter or in-place member edit), ask again: the second answer must
+    describe the current addresses."""
+    from cisco_acl import functions
+
+    a, b, b2, platform = case["a"], case["b"], case["b2"], case["platform"]
+    if platform not in ("ios", "nxos"):
+        raise Invalid()
+    for x in (a, b, b2):
+        G.validate_addr(x)
+    if (b["k"] == "group") != (b2["k"] == "group"):
+        raise Invalid()
+    top, bot = _mk_address(a, platform), _mk_address(b, platform)
+    first = bot.subnet_of(top)
+    _ = top.ipnets(), bot.ipnets()
+    if b["k"] == "group":
+        # edit the member list in place until it equals b2's
+        want_lines = A.member_lines(b2)
+        while len(bot.items) > len(want_lines):
+            bot.items.pop()
+        for i, ln in enumerate(want_lines):
+            if i < len(bot.items):
+                bot.items[i].line = ln
+            else:
+                bot.items.append(type(bot)(ln, platform=platform))
+    else:
+        bot.line = G.render_addr(b2, platform)
+    want = R.pairs_subset(_pairs(b2), _pairs(a))
+    grouped = a["k"] == "group" or b2["k"] == "group"
+    v = Verdict()
+    for name, got in (("Address.subnet_of", bot.subnet_of(top)), ("functions.subnet_of", functions.subnet_of(top=top, bottom=bot))):
+        if grouped:
+            if got and not want and _pairs(b2):
+                v.fail(f"readdress:{name}:true-without-containment:grouped", {"top": top.line, "bottom": bot.line,
+                       "bottom_members": [x.line for x in bot.items], "first_answer": first})
+        elif bool(got) != want:
+            v.fail(f"readdress:{name}:stale-or-wrong-answer", {"top": top.line, "bottom_before": G.render_addr(b, platform),
+                   "bottom_now": bot.line, "library": got, "oracle": want, "first_answer": first})
+    v.nt(bool(first) != want)
+    v.label("answer-must-flip" if bool(first) != want else "answer-stays", "grouped" if grouped else "plain")
+    return v
+
+
+@st.composite
+def readdress_st(draw, tier):
+    a = draw(G.addr_st(kmax=3, groups=True))
+    b = draw(G.mutate_addr(a, kmax=3, groups=True))
+    if draw(st.booleans()):
+        b2 = draw(G.mutate_addr(b, kmax=3, groups=True))
+    else:
+        b2 = draw(G.addr_st(kmax=3, groups=True))
+    if (b["k"] == "group") != (b2["k"] == "group"):
+        b2 = draw(G.addr_st(kmax=3, groups=True, kinds=["group"])) if b["k"] == "group" else \
+            draw(G.addr_st(kmax=3, groups=False))
+    return {"a": a, "b": b, "b2": b2, "platform": draw(st.sampled_from(["ios", "nxos"]))}
+
+
 SUBS = [
+    Sub("readdress", judge_readdress, strategy=readdress_st, quick=2500, thorough=60000),
     Sub("address", judge_addr, strategy=addr_pair_st, quick=6000, thorough=200000, shards_thorough=48),
     Sub("member", judge_member, strategy=member_pair_st, quick=3000, thorough=80000),
     Sub("in-group", judge_in_group, strategy=in_group_st, quick=2000, thorough=50000),
